@@ -330,4 +330,127 @@ theorem portParse_digits (scheme P : Str) (hd : P.all isAsciiDigit = true) (hne 
   rw [if_neg (by omega)]
   split <;> rfl
 
+/-! ## an absolute-path reference without dot segments -/
+
+theorem splitSlash_eq_splitOn (p : Str) (h : '\\' ∉ p) : splitSlash p = splitOn '/' p := by
+  induction p with
+  | nil => rfl
+  | cons c cs ih =>
+    have hc : c ≠ '\\' := by rintro rfl; exact h (by simp)
+    have ih' := ih (fun hm => h (by simp [hm]))
+    unfold splitSlash splitOn
+    by_cases hs : c = '/'
+    · subst hs
+      simp [isSlash, ih']
+    · have : isSlash c = false := by simp [isSlash, hs, hc]
+      simp only [this, Bool.false_eq_true, if_false, hs, ih']
+      rfl
+
+theorem splitSlash_ne_nil (p : Str) : splitSlash p ≠ [] := by
+  induction p with
+  | nil => simp [splitSlash]
+  | cons c cs ih =>
+    unfold splitSlash
+    split
+    · simp
+    · split <;> simp
+
+/-- without dot segments the path state appends every (encoded) segment -/
+theorem pathFold_nodots (segs : List Str) (acc : List Str)
+    (h : ∀ seg ∈ segs, isSingleDot seg = false ∧ isDoubleDot seg = false) :
+    pathFold acc segs = acc ++ segs.map (encodeWith inPathSet) := by
+  induction segs generalizing acc with
+  | nil => simp [pathFold]
+  | cons b rest ih =>
+    obtain ⟨h1, h2⟩ := h b (by simp)
+    cases rest with
+    | nil => simp [pathFold, h1, h2]
+    | cons b2 rest2 =>
+      rw [pathFold]
+      · simp only [h1, h2, Bool.false_eq_true, if_false]
+        rw [ih _ (fun seg hs => h seg (by simp [hs]))]
+        simp
+      · simp
+
+theorem encodeWith_append (set : Char → Bool) (a b : Str) : encodeWith set (a ++ b) = encodeWith set a ++ encodeWith set b := by
+  unfold encodeWith; simp
+
+theorem encodeWith_cons_keep (set : Char → Bool) (c : Char) (r : Str) (h : set c = false) :
+    encodeWith set (c :: r) = c :: encodeWith set r := by
+  unfold encodeWith; simp [h]
+
+theorem encodeWith_id (set : Char → Bool) (s : Str) (h : ∀ c ∈ s, set c = false) : encodeWith set s = s := by
+  induction s with
+  | nil => rfl
+  | cons c r ih => rw [encodeWith_cons_keep _ _ _ (h c (by simp)), ih (fun x hx => h x (by simp [hx]))]
+
+theorem slash_not_in_pathSet : inPathSet '/' = false := by decide
+
+/-- joining the encoded segments with `/` is encoding the unsplit text -/
+theorem join_encoded (p : Str) :
+    (splitOn '/' p).flatMap (fun seg => '/' :: encodeWith inPathSet seg) = '/' :: encodeWith inPathSet p := by
+  induction p with
+  | nil => rfl
+  | cons c cs ih =>
+    unfold splitOn
+    by_cases hs : c = '/'
+    · subst hs
+      simp only [if_true, List.flatMap_cons, ih]
+      rw [encodeWith_cons_keep _ _ _ slash_not_in_pathSet]
+      rfl
+    · simp only [hs, if_false]
+      cases hsp : splitOn '/' cs with
+      | nil => exact absurd hsp (splitOn_ne_nil _ _)
+      | cons h t =>
+        rw [hsp] at ih
+        simp only [List.flatMap_cons] at ih ⊢
+        have e : encodeWith inPathSet (c :: h) = encodeWith inPathSet [c] ++ encodeWith inPathSet h :=
+          encodeWith_append _ [c] h
+        have e2 : encodeWith inPathSet (c :: cs) = encodeWith inPathSet [c] ++ encodeWith inPathSet cs :=
+          encodeWith_append _ [c] cs
+        rw [e, e2]
+        have ih' : encodeWith inPathSet h ++ List.flatMap (fun seg => '/' :: encodeWith inPathSet seg) t = encodeWith inPathSet cs := by
+          simpa using ih
+        rw [List.cons_append, List.append_assoc, ih']
+
+theorem pathString_def (u : Url) : pathString u = u.path.flatMap (fun seg => '/' :: seg) := rfl
+
+/-- **absolute-path reference**: `/g'` with `g'` not starting with a slash, clean, and without dot segments resolves to
+the base's origin with the (encoded) text up to `?`/`#` as its path -/
+theorem parse_abspath (base : Url) (g' : Str) (hcl : Clean ('/' :: g')) (hns : ∀ r, g' ≠ '/' :: r)
+    (hdots : ∀ seg ∈ splitOn '/' (g'.takeWhile (fun c => !isPathEnd c)), isSingleDot seg = false ∧ isDoubleDot seg = false) :
+    ∃ url, parse base ('/' :: g') = .ok url ∧ url.scheme = base.scheme ∧ url.host = base.host ∧ url.port = base.port ∧
+      pathString url = encodeWith inPathSet (('/' :: g').takeWhile (fun c => !isPathEnd c)) := by
+  have hpre := preprocess_clean hcl
+  have hps : parseScheme ('/' :: g') = none := by
+    unfold parseScheme
+    have : isAsciiAlpha '/' = false := by decide
+    simp [this]
+  have hslash : isSlash '/' = true := by decide
+  have hbs : '\\' ∉ g'.takeWhile (fun c => !isPathEnd c) := by
+    intro hm
+    exact (hcl.tail _ (mem_of_mem_takeWhile _ _ _ hm)).2 rfl
+  have key : ∀ B : Url, pathString (pathState B [] g') = encodeWith inPathSet (('/' :: g').takeWhile (fun c => !isPathEnd c)) := by
+    intro B
+    have hpe : (!isPathEnd '/') = true := by decide
+    rw [pathString_def]
+    unfold pathState
+    simp only
+    rw [splitSlash_eq_splitOn _ hbs, pathFold_nodots _ _ hdots, List.nil_append, List.flatMap_map, join_encoded]
+    rw [List.takeWhile_cons, if_pos hpe, encodeWith_cons_keep _ _ _ slash_not_in_pathSet]
+  unfold parse
+  simp only [hpre, hps]
+  unfold relativeState
+  simp only [hslash, if_true]
+  unfold relativeSlash
+  cases g' with
+  | nil =>
+    exact ⟨_, rfl, (pathState_origin _ _ _).1, (pathState_origin _ _ _).2.1, (pathState_origin _ _ _).2.2, key _⟩
+  | cons c r =>
+    have hc1 : c ≠ '/' := by rintro rfl; exact hns r rfl
+    have hc2 : c ≠ '\\' := (hcl c (by simp)).2
+    have hsl : isSlash c = false := by simp [isSlash, hc1, hc2]
+    simp only [hsl, Bool.false_eq_true, if_false]
+    exact ⟨_, rfl, (pathState_origin _ _ _).1, (pathState_origin _ _ _).2.1, (pathState_origin _ _ _).2.2, key _⟩
+
 end VgiVerif.UrlWhatwg
